@@ -9,6 +9,7 @@ over arbitrary histories and input forms is not decided.
 import ast
 
 from ..astutil import call_simple_name, dotted, exc_name, guard_chain, names_in, pm, pmall, returns_of, short
+from ..callgraph import CHA, EXACT, get_callgraph
 from ..cfg import cfg_of, node_calls
 from ..forward import flow_of
 from ..loader import AnalysisError, FunctionInfo, body_walk, norm, walk_no_nested
@@ -38,6 +39,7 @@ def run(ctx):
     ctx.do(rule_newest)
     ctx.do(rule_all_versions_kept)
     ctx.do(rule_save_load)
+    ctx.do(rule_encoding_agreement)
     # what a store holds is what was added, under the version the caller named (or none): the stores hand the version on
     # exactly as received
     from . import C14
@@ -342,6 +344,140 @@ def rule_all_versions_kept(ctx):
     run.check(ok, R, key(sv.module.relpath, sv.qualname, "reads-every-version-file"), "not every version file is read",
               file=sv.module.relpath, line=sv.node.lineno, function=sv.qualname,
               expected="all *.json files of each id directory", found="changed")
+
+
+def _origins(prog, cg, rev, fi, expr, depth=0):
+    """Where the value of `expr` in fi ultimately comes from, following parameters back through every resolved caller:
+    {("const", repr) | ("selfattr", class, attr) | ("entry-param", function, param) | ("other", text)}."""
+    from ..forward import flow_of
+    out = set()
+    pr = flow_of(fi).prov(expr)
+    for c in pr.consts:
+        out.add(("const", repr(c)))
+    for a_ in pr.selfattrs:
+        out.add(("selfattr", fi.cls.qualname if fi.cls is not None else "?", a_))
+    for o in sorted(pr.other):
+        out.add(("other", str(o)[:40]))
+    for p_ in sorted(pr.params):
+        callers = rev.get(fi.id, [])
+        if depth >= 6 or not callers:
+            out.add(("entry-param", fi.qualname, p_))
+            continue
+        for cfi, call, target in callers:
+            e = cg.bind(call, target).params.get(p_)
+            if e is None:
+                d = fi.defaults().get(p_)
+                sub = _none_means(fi, p_) if (isinstance(d, ast.Constant) and d.value is None) else None
+                if sub is not None:
+                    # `def f(.., p=None): if p is None: p = X` -- an omitted argument means X
+                    out |= _origins(prog, cg, rev, fi, sub, depth + 1)
+                else:
+                    out.add(("const", norm(d)) if d is not None else ("entry-param", fi.qualname, p_))
+            else:
+                out |= _origins(prog, cg, rev, cfi, e, depth + 1)
+    return out
+
+
+def _none_means(fi, p_):
+    """the expression X of a leading `if p is None: p = X` statement of fi (before any other use of p), else None"""
+    for st in fi.node.body:
+        if isinstance(st, ast.Expr) and isinstance(st.value, ast.Constant):
+            continue    # docstring
+        if isinstance(st, ast.If) and norm(st.test) == "%s is None" % p_ and not st.orelse and len(st.body) == 1 \
+                and isinstance(st.body[0], ast.Assign) and norm(st.body[0].targets[0]) == p_:
+            return st.body[0].value
+        if any(isinstance(x, ast.Name) and x.id == p_ for x in ast.walk(st)):
+            return None
+    return None
+
+
+def rule_encoding_agreement(ctx):
+    """What the sink writes, the source of the same store must read back: the text encoding of a file-system store is ONE
+    option.  Decided as agreement between the sibling components: every text-mode open() reachable in the module names an
+    encoding; the encoding of every READ and of every WRITE is traced back through all resolved callers (def-use across
+    calls) to its origins, and both sides must originate in the `encoding` attribute their component received from its
+    constructor; FileSystemStore must hand its own `encoding` argument to BOTH components.  A side whose encoding ends in a
+    literal (or a default nobody overrides) while the other side is configurable is the violation: non-ASCII content written
+    under one encoding is read under another."""
+    run = ctx.run
+    prog = ctx.prog
+    R = "C11.encoding-agreement"
+    cg = get_callgraph(prog)
+    rev = {}
+    for fid, lst in cg.edges().items():
+        cfi = prog.functions.get(fid)
+        if cfi is None or cfi.module.relpath.startswith("stix2/test"):
+            continue
+        for call, targets in lst:
+            for t in targets:
+                if t.func is not None and t.kind in (EXACT, CHA):
+                    rev.setdefault(t.func.id, []).append((cfi, call, t))
+    sides = {"read": [], "write": []}
+    for fi in sorted(prog.functions.values(), key=lambda f: f.id):
+        if fi.module.name != FS:
+            continue
+        for c in body_walk(fi.node):
+            if not (isinstance(c, ast.Call) and norm(c.func) in ("io.open", "open") and c.args):
+                continue
+            mode = c.args[1] if len(c.args) > 1 else next((k.value for k in c.keywords if k.arg == "mode"), None)
+            m = mode.value if isinstance(mode, ast.Constant) else "r"
+            if "b" in str(m):
+                continue
+            enc = next((k.value for k in c.keywords if k.arg == "encoding"), None)
+            side = "write" if any(ch in str(m) for ch in "wax+") else "read"
+            if enc is None:
+                run.violation(R, key(fi.module.relpath, fi.qualname, "%s-open-names-encoding" % side),
+                              "a text-mode open() without encoding= uses the platform's locale encoding: what one machine wrote "
+                              "another cannot read back", file=fi.module.relpath, line=c.lineno, function=fi.qualname,
+                              expected="encoding=<the store's encoding>", found=short(c))
+                continue
+            sides[side].append((fi, c, _origins(prog, cg, rev, fi, enc)))
+    if not sides["read"] or not sides["write"]:
+        raise AnalysisError("file-system store: no text-mode read or write open() found (anchors lost)")
+    attr = {}
+    for side, cname in (("read", "FileSystemSource"), ("write", "FileSystemSink")):
+        for fi, c, org in sides[side]:
+            ok = bool(org) and all(o[0] == "selfattr" and o[1].split(".")[0] == cname for o in org)
+            if ok:
+                attr.setdefault(side, set()).update(o[2] for o in org)
+            run.check(ok, R, key(fi.module.relpath, fi.qualname, "%s-encoding-is-the-component-option" % side),
+                      "the encoding of this %s does not (only) come from the option its %s was constructed with: the other side of the "
+                      "same store is configurable, so files written under one encoding are read under another (non-ASCII text is "
+                      "garbled or refused)" % (side, cname), file=fi.module.relpath, line=c.lineno, function=fi.qualname,
+                      expected="encoding=self.<option set in %s.__init__ from its parameter>, handed on by every caller" % cname,
+                      found=sorted("%s:%s" % (o[0], ".".join(str(x) for x in o[1:])) for o in org))
+    # the attribute is set in the constructor from the constructor's parameter
+    from ..forward import flow_of
+    for side, cname in (("read", "FileSystemSource"), ("write", "FileSystemSink")):
+        init = prog.cls(FS + "::" + cname).methods["__init__"]
+        for an in sorted(attr.get(side, ())):
+            asg = [x for x in body_walk(init.node) if isinstance(x, ast.Assign) and norm(x.targets[0]) == "self." + an]
+            ok = bool(asg) and all(flow_of(init).prov(x.value).params and not flow_of(init).prov(x.value).consts for x in asg)
+            run.check(ok, R, key(init.module.relpath, init.qualname, "option-from-parameter:" + an),
+                      "the component's encoding option is not taken from its constructor parameter", file=init.module.relpath,
+                      line=init.node.lineno, function=init.qualname, expected="self.%s = <parameter>" % an,
+                      found=[short(x) for x in asg])
+    # the store hands ONE encoding to both components
+    st = prog.cls(FS + "::FileSystemStore").methods["__init__"]
+    encp = [p_ for p_ in st.all_param_names() if "encoding" in p_]
+    if not encp:
+        run.info(R, key(st.module.relpath, st.qualname, "store-has-no-encoding-option"), "FileSystemStore takes no encoding option")
+    for cname in ("FileSystemSource", "FileSystemSink"):
+        calls = [c for c in body_walk(st.node) if isinstance(c, ast.Call) and call_simple_name(c) == cname]
+        ok = len(calls) == 1
+        found = None
+        if ok and encp:
+            init = prog.cls(FS + "::" + cname).methods["__init__"]
+            tparams = [p_ for p_ in init.all_param_names() if "encoding" in p_]
+            kw = {k.arg: k.value for k in calls[0].keywords}
+            e = kw.get(tparams[0]) if tparams else None
+            found = norm(e) if e is not None else "not passed"
+            ok = e is not None and encp[0] in flow_of(st).prov(e).params
+        run.check(ok, R, key(st.module.relpath, st.qualname, "hands-encoding-to:" + cname),
+                  "FileSystemStore(encoding=...) does not reach its %s: the two halves of one store use different encodings" % cname,
+                  file=st.module.relpath, line=st.node.lineno, function=st.qualname, expected="%s(..., encoding=encoding)" % cname,
+                  found=found)
+    run.floor(R, 6)
 
 
 def rule_save_load(ctx):
